@@ -300,5 +300,56 @@ def main(argv):
     return 0
 
 
+
+def fork_call(func, arg, timeout=600):
+    """Runs func(arg) in a forked child (fresh copy of the pristine process state) and returns its pickled result.
+    Returns ('ok', result) | ('timeout', None) | ('crash', text)."""
+    import select
+    import signal
+    r, w = os.pipe()
+    pid = os.fork()
+    if pid == 0:
+        os.close(r)
+        code = 0
+        try:
+            try:
+                payload = pickle.dumps(('ok', func(arg)))
+            except BaseException:
+                payload = pickle.dumps(('crash', traceback.format_exc()[-2000:]))
+            with os.fdopen(w, 'wb') as f:
+                f.write(payload)
+        except BaseException:
+            code = 1
+        finally:
+            os._exit(code)
+    os.close(w)
+    chunks = []
+    deadline = time.time() + timeout
+    with os.fdopen(r, 'rb') as f:
+        while True:
+            left = deadline - time.time()
+            if left <= 0:
+                try:
+                    os.kill(pid, signal.SIGKILL)
+                except OSError:
+                    pass
+                os.waitpid(pid, 0)
+                return ('timeout', None)
+            ready, _, _ = select.select([f], [], [], min(left, 5))
+            if ready:
+                b = os.read(f.fileno(), 1 << 20)
+                if not b:
+                    break
+                chunks.append(b)
+    os.waitpid(pid, 0)
+    data = b''.join(chunks)
+    if not data:
+        return ('crash', 'child produced no output')
+    try:
+        return pickle.loads(data)
+    except Exception as e:
+        return ('crash', 'unpicklable child result: %r' % (e,))
+
+
 if __name__ == '__main__':
     sys.exit(main(sys.argv[1:]))
